@@ -410,7 +410,7 @@ def _self_writes(cls):
             elif isinstance(n, (ast.AugAssign, ast.AnnAssign)):
                 targets = [n.target]
             for t in targets:
-                if isinstance(t, ast.Attribute) and isinstance(t.value, ast.Name) and t.value.id == "self":
+                if isinstance(t, ast.Attribute) and isinstance(t.value, ast.Name) and t.value.id in ("self", "cls"):
                     out.append((f.name, t.attr, "attr"))
                 if isinstance(t, ast.Subscript) and isinstance(t.value, ast.Attribute) \
                         and isinstance(t.value.value, ast.Name) and t.value.value.id in ("self", "cls"):
@@ -418,7 +418,7 @@ def _self_writes(cls):
             if isinstance(n, ast.Call) and isinstance(n.func, ast.Attribute) and n.func.attr in (
                     "append", "extend", "insert", "pop", "remove", "clear", "update", "setdefault") \
                     and isinstance(n.func.value, ast.Attribute) and isinstance(n.func.value.value, ast.Name) \
-                    and n.func.value.value.id == "self":
+                    and n.func.value.value.id in ("self", "cls"):
                 out.append((f.name, n.func.value.attr, "mutate"))
     return out
 
